@@ -25,19 +25,22 @@ pub struct ContCase {
     pub extra: Vec<ContentCase>,
     /// pack ids of the extra packs are spread out: extra number e (0-based) gets id 2 + e * (1 + id_gap)
     pub id_gap: u16,
+    /// pack id of the main content pack: 1 (what BasicCreator always uses), or 0 for containers made with the low-level
+    /// creators (a content pack may be given the id 0; the directory pack is not in the same list)
+    pub first_id: u16,
 }
 
 impl ContCase {
     pub fn to_json(&self) -> Value {
         json!({"content": self.content.to_json(), "dir": self.dir.to_json(), "pkg": self.pkg.as_str(),
-               "extra": self.extra.iter().map(|c| c.to_json()).collect::<Vec<_>>(), "id_gap": self.id_gap})
+               "extra": self.extra.iter().map(|c| c.to_json()).collect::<Vec<_>>(), "id_gap": self.id_gap, "first_id": self.first_id})
     }
     /// Pack id of content pack number `pi` (0 = the main pack, 1.. = the extras).
     pub fn pack_id(&self, pi: usize) -> u16 {
         if pi == 0 {
-            1
+            self.first_id
         } else {
-            2 + (pi as u16 - 1) * (1 + self.id_gap)
+            self.first_id + 1 + (pi as u16 - 1) * (1 + self.id_gap)
         }
     }
     pub fn from_json(v: &Value) -> ContCase {
@@ -47,6 +50,7 @@ impl ContCase {
             pkg: Pkg::parse(jstr(v, "pkg")),
             extra: jarr(v, "extra").iter().map(ContentCase::from_json).collect(),
             id_gap: v.get("id_gap").and_then(|x| x.as_u64()).unwrap_or(0) as u16,
+            first_id: v.get("first_id").and_then(|x| x.as_u64()).unwrap_or(1) as u16,
         }
     }
 }
@@ -109,7 +113,7 @@ pub fn gen_small(rng: &mut Rng, tier: Tier, pkg: Pkg, n_extra: usize, max_items:
         indexes.push(IndexDef { name: "files_tail".into(), store: 0, offset: 1, count: n_items as u32 - 1 });
     }
     let dir = DirCase { seed: rng.next(), vstores: vec![indexed], stores: vec![files, misc], indexes, defer: 0, free: if rng.chance(1, 2) { rng.next() | 1 } else { 0 } };
-    ContCase { content, dir, pkg, extra, id_gap: 0 }
+    ContCase { content, dir, pkg, extra, id_gap: 0, first_id: 1 }
 }
 
 pub struct CreatedCont {
@@ -218,7 +222,7 @@ pub fn compare_directory(case: &DirCase, models: &[Vec<EntryModel>], view: &File
             }
             for (name, v) in &em.vals {
                 let expected = match v {
-                    Val::Ref(t) => Val::U(inverse[*t] as u64),
+                    Val::Ref(t) => resolved_ref(st, name, inverse[*t]),
                     o => o.clone(),
                 };
                 match de.vals.get(name) {
